@@ -161,10 +161,61 @@ def f_closest : Family :=
     specT := fun k j => .branch (.le (clT (L k)) zero) (.leaf (vv (L k) j))
       (.branch (.le (clLen (L k)) (clT (L k))) (.leaf (vv (2 * L k) j)) (.leaf (.add (vv (L k) j) (.mul (clDir (L k) j) (clT (L k)))))) }
 
+/-! gtx norms, oriented angles, orthonormalize (walk mode where the code branches: the specification is the textbook tree) -/
+def acosE (a : E) : E := .call1 .acos a
+def mone : E := .lit (-1) 1
+/-- `acos(clamp(d, -1, 1))` as a tree -/
+def acosClampT (d : E) (wrap : E → E) : Tree :=
+  .branch (.lt d mone) (.leaf (wrap (acosE mone))) (.branch (.lt one d) (.leaf (wrap (acosE one))) (.leaf (wrap (acosE d))))
+/-- scalar overload: the 1-component instance of `angle` -/
+def f_sangle : Family :=
+  { name := "sangle", kind := .poly, treeMode := true, guard := true, keys := [[]], nOut := fun _ => 1, spec := fun _ _ => zero,
+    specT := fun _ _ => acosClampT (.mul (v 0) (v 1)) id }
+/-- `orientedAngle(x, y)` (vec2): the angle, positive iff `x.x y.y − y.x x.y > 0` -/
+def f_orientedangle2 : Family :=
+  { name := "orientedangle2", unit := "orientedangle", kind := .poly, treeMode := true, treeWalk := true, guard := true, keys := [[2]],
+    nOut := fun _ => 1, spec := fun _ _ => zero,
+    specT := fun _ _ =>
+      let d := dotE 2 (vv 0) (vv 2)
+      .branch (.lt zero (.sub (.mul (v 0) (v 3)) (.mul (v 2) (v 1)))) (acosClampT d id) (acosClampT d .neg) }
+/-- `orientedAngle(x, y, ref)` (vec3): the angle, negated iff `ref · (x × y) < 0` -/
+def f_orientedangle3 : Family :=
+  { name := "orientedangle3", unit := "orientedangle", kind := .poly, treeMode := true, treeWalk := true, guard := true, keys := [[3]],
+    nOut := fun _ => 1, spec := fun _ _ => zero,
+    specT := fun _ _ =>
+      let d := dotE 3 (vv 0) (vv 3)
+      let tr := dotE 3 (vv 6) (crossE (vv 0) (vv 3))
+      .branch (.lt tr zero) (acosClampT d .neg) (acosClampT d id) }
+/-- sum of absolute values as a decision tree: `|a| = (0 ≤ a ? a : −a)` -/
+def absSumT : List E → E → Tree
+  | [], acc => .leaf acc
+  | a :: as, acc => .branch (.le zero a) (absSumT as (.add acc a)) (absSumT as (.add acc (.neg a)))
+def f_l1norm : Family :=
+  { name := "l1norm", kind := .poly, treeMode := true, treeWalk := true, keys := [[3]], nOut := fun _ => 1, spec := fun _ _ => zero,
+    specT := fun _ _ => absSumT [v 0, v 1, v 2] zero }
+def f_l1norm2 : Family :=
+  { name := "l1norm2", kind := .poly, treeMode := true, treeWalk := true, keys := [[3]], nOut := fun _ => 1, spec := fun _ _ => zero,
+    specT := fun _ _ => absSumT [.sub (v 3) (v 0), .sub (v 4) (v 1), .sub (v 5) (v 2)] zero }
+def f_l2norm : Family :=
+  { name := "l2norm", kind := .poly, guard := true, keys := [[3]], nOut := fun _ => 1, spec := fun _ _ => sqrtE (dotE 3 (vv 0) (vv 0)) }
+/-- `lMaxNorm(v) = max(max(|x|, |y|), |z|)` with glm's `max(a, b) = (a < b) ? b : a` -/
+def absThen (a : E) (k : E → Tree) : Tree := .branch (.le zero a) (k a) (k (.neg a))
+def max3T (a b c : E) : Tree :=
+  .branch (.lt a b) (.branch (.lt b c) (.leaf c) (.leaf b)) (.branch (.lt a c) (.leaf c) (.leaf a))
+def f_lmaxnorm : Family :=
+  { name := "lmaxnorm", kind := .poly, treeMode := true, treeWalk := true, keys := [[3]], nOut := fun _ => 1, spec := fun _ _ => zero,
+    specT := fun _ _ => absThen (v 0) fun a => absThen (v 1) fun b => absThen (v 2) fun c => max3T a b c }
+/-- `orthonormalize(x, y) = normalize(x − y (y·x))`; the only divisor is the length of that difference -/
+def onD (i : Nat) : E := .sub (vv 0 i) (.mul (vv 3 i) (dotE 3 (vv 3) (vv 0)))
+def onLen : E := sqrtE (dotE 3 onD onD)
+def f_orthonormalize : Family :=
+  { name := "orthonormalize", unit := "orthonormalize_v", kind := .frac, guard := true, keys := [[]], nOut := fun _ => 3,
+    spec := fun _ j => .mul (onD j) (.div one onLen), allowed := fun _ => [onLen] }
+
 def families : List Family :=
   [f_dot, f_length, f_distance, f_length2, f_distance2, f_normalize, f_normalize_unit, f_faceforward,
    f_reflect, f_reflect_len, f_reflect_inv, f_refract, f_sdot, f_slength, f_sdistance, f_sfaceforward,
    f_sreflect, f_srefract, f_cross, f_cross_orth, f_cross2, f_mixed, f_proj, f_perp, f_perp_orth, f_angle,
-   f_trinormal, f_closest]
+   f_trinormal, f_closest, f_sangle, f_orientedangle2, f_orientedangle3, f_l1norm, f_l1norm2, f_l2norm, f_lmaxnorm, f_orthonormalize]
 
 end Glm.Spec.C12
